@@ -75,6 +75,20 @@ pub mod quick_xml {
             ensures *r == old(self).inner(), final(self).inner() == *final(r), final(self).parser() == old(self).parser(),
         { unimplemented!() }
     }
+    /// quick_xml::Error (opaque)
+    #[verifier::external_body]
+    pub struct Error { _o: u8 }
+    /// quick_xml::events::Event<'a>: the variants of quick-xml 0.39 with their payloads made opaque
+    pub enum Event { Start(u8), End(u8), Empty(u8), Text(u8), CData(u8), Comment(u8), Decl(u8), PI(u8), DocType(u8), GeneralRef(u8), Eof }
+    impl<R: super::io::BufRead> NsReader<super::BufReadCounter<R>> {
+        /// quick_xml reads the next event.  It knows its underlying reader only as an `io::BufRead`
+        /// (fill_buf / consume), so it cannot change the limit of the counting reader: that frame is the
+        /// ASSUMED part; what it does to trip / the inner reader is left open.
+        #[verifier::external_body]
+        pub fn read_event_into(&mut self, buf: &mut Vec<u8>) -> (r: Result<Event, Error>)
+            ensures final(self).inner().limit == old(self).inner().limit,
+        { unimplemented!() }
+    }
 }
 
 // ---- assumed contract of std (listed in xml_limit.trusted) ---------------------------------------------
@@ -268,6 +282,109 @@ impl<R: io::BufRead> Reader<R> {
             final(self).reader.inner().limit == limit,
             within_limit_since(final(self).reader.inner(), final(self).reader.inner().reader.consumed()),
     //@/spec
+    //@end
+}
+
+// ---- the limit stays in force: Reader / Content functions around the mechanism -------------------------------
+// "never reads more than the configured per-element limit plus one buffer beyond the start of the offending
+// element, however long ... a whitespace run is": the budget set for an element must still be in force when the
+// element has been read - it is what bounds the text, comments and blanks that FOLLOW it until the next limited
+// item sets its own - and the epilogue is read under the last budget.  So: each *_with_limit function returns
+// with exactly the limit it was given in force, whatever its outcome; end / take_end leave the limit alone.
+use quick_xml::Event;
+//@item src/xml/decode.rs :: pub enum Error
+impl vstd::std_specs::convert::FromSpecImpl<quick_xml::Error> for Error {
+    open spec fn obeys_from_spec() -> bool { false }
+    open spec fn from_spec(v: quick_xml::Error) -> Self { arbitrary() }
+}
+impl From<quick_xml::Error> for Error {
+    //@fn src/xml/decode.rs :: impl From<quick_xml::Error> for Error :: from
+    //@end
+}
+/// opaque stand-ins for xml::decode::{Element, Text} handed to the caller's closure, and for quick_xml's AttrError
+#[verifier::external_body]
+pub struct Element { _o: u8 }
+#[verifier::external_body]
+pub struct Text { _o: u8 }
+#[verifier::external_body]
+pub struct AttrError { _o: u8 }
+//@item src/xml/decode.rs :: pub struct Content pubfields
+
+pub open spec fn limit_of<R: io::BufRead>(r: Reader<R>) -> u64 { r.reader.inner().limit }
+
+impl<R: io::BufRead> Reader<R> {
+    /// Reader::start: an event loop over quick_xml (generic closure, borrowed events): NOT verified here.
+    /// ASSUMED frame: it does not touch the limit (its text never mentions `limit(`/`reset_and_limit`).
+    #[verifier::external_body]
+    pub fn start<F, E>(&mut self, op: F) -> (r: Result<Content, E>)
+        ensures limit_of(*final(self)) == limit_of(*old(self))
+    { unimplemented!() }
+
+    //@fn src/xml/decode.rs :: impl<R: io::BufRead> Reader<R> :: start_with_limit
+    //@sigsub R12 "where F: FnOnce(Element) -> Result<(), E>, E: From<Error>" ""
+    //@spec
+        ensures limit_of(*final(self)) == limit,
+    //@/spec
+    //@end
+
+    #[verifier::exec_allows_no_decreases_clause]
+    //@fn src/xml/decode.rs :: impl<R: io::BufRead> Reader<R> :: end
+    //@spec
+        ensures limit_of(*final(self)) == limit_of(*old(self)),
+    //@/spec
+    //@loop "loop"
+        invariant limit_of(*self) == limit_of(*old(self)),
+    //@/loop
+    //@end
+}
+
+impl Content {
+    /// Content::take_element / take_opt_element / take_text: event loops with generic closures: NOT verified here.
+    /// ASSUMED frame: they do not touch the limit.
+    #[verifier::external_body]
+    pub fn take_element<R: io::BufRead, F, E>(&self, reader: &mut Reader<R>, op: F) -> (r: Result<Content, E>)
+        ensures limit_of(*final(reader)) == limit_of(*old(reader))
+    { unimplemented!() }
+    #[verifier::external_body]
+    pub fn take_opt_element<R: io::BufRead, F, E>(&mut self, reader: &mut Reader<R>, op: F) -> (r: Result<Option<Content>, E>)
+        ensures limit_of(*final(reader)) == limit_of(*old(reader))
+    { unimplemented!() }
+    #[verifier::external_body]
+    pub fn take_text<R: io::BufRead, F, T, E>(&mut self, reader: &mut Reader<R>, op: F) -> (r: Result<T, E>)
+        ensures limit_of(*final(reader)) == limit_of(*old(reader))
+    { unimplemented!() }
+
+    //@fn src/xml/decode.rs :: impl Content :: take_element_with_limit
+    //@sigsub R12 "where R: io::BufRead, F: FnOnce(Element) -> Result<(), E>, E: From<Error>" "where R: io::BufRead"
+    //@spec
+        ensures limit_of(*final(reader)) == limit,
+    //@/spec
+    //@end
+
+    //@fn src/xml/decode.rs :: impl Content :: take_opt_element_with_limit
+    //@sigsub R12 "F: FnOnce(Element) -> Result<(), E>," ""
+    //@sigsub R12 "E: From<Error>" ""
+    //@spec
+        ensures limit_of(*final(reader)) == limit,
+    //@/spec
+    //@end
+
+    //@fn src/xml/decode.rs :: impl Content :: take_text_with_limit
+    //@sigsub R12 "F: FnOnce(Text) -> Result<T, E>," ""
+    //@sigsub R12 "E: From<Error>" ""
+    //@spec
+        ensures limit_of(*final(reader)) == limit,
+    //@/spec
+    //@end
+
+    #[verifier::exec_allows_no_decreases_clause]
+    //@fn src/xml/decode.rs :: impl Content :: take_end
+    //@spec
+        ensures limit_of(*final(reader)) == limit_of(*old(reader)),
+    //@/spec
+    //@loop "loop"
+        invariant limit_of(*reader) == limit_of(*old(reader)),
+    //@/loop
     //@end
 }
 
